@@ -1,6 +1,7 @@
 package sched
 
 import (
+	nats "github.com/nats-io/nats.go"
 	"fmt"
 	"math/rand"
 	"runtime"
@@ -197,6 +198,91 @@ func RestartLoop(seed int64, prog Program, n int) *RunResult {
 // working one, while a producer keeps submitting callbacks of one worker group (accepted from the
 // moment the state is started, i.e. also while the failing subscribe is still in progress). The
 // callbacks of the group must never overlap, whichever serve cycle accepted them.
+// FailedStartLoop: a Serve or ListenAndServe call that fails before anything was started (no server at
+// the address; a listener registered for a pattern that has no handler) returns an error and leaves a
+// service that is not running: Shutdown comes back at once, and the service - repaired where needed -
+// can be served and then gives the usual guarantees.
+func FailedStartLoop(seed int64, prog Program, n int) *RunResult {
+	out := &RunResult{}
+	res.VerifHook = nil
+	viol := func(kind, text string) {
+		out.Violations = append(out.Violations, Violation{Property: "C03", Kind: kind, Text: text, Sig: map[string]string{"kind": kind, "engine": "sched"}})
+	}
+	for i := 0; i < n && len(out.Violations) == 0; i++ {
+		s := res.NewService("test")
+		s.SetLogger(nil)
+		s.SetWorkerCount(prog.Workers)
+		s.Handle("g.$id", res.GetResource(func(r res.GetRequest) { r.NotFound() }))
+		what := "ListenAndServe with no server at the address"
+		first := make(chan error, 1)
+		if i%2 == 0 {
+			go func() { first <- s.ListenAndServe("nats://127.0.0.1:1", nats.Timeout(300*time.Millisecond)) }()
+		} else {
+			what = "Serve with a listener on a pattern without handler"
+			s.AddListener("late.$id", func(*res.Event) {})
+			go func() { first <- s.Serve(rconn.New(nil)) }()
+		}
+		select {
+		case err := <-first:
+			if err == nil {
+				viol("failed-start-no-error", what+" returned nil")
+				continue
+			}
+		case <-time.After(5 * time.Second):
+			viol("serve-hang", what+" did not return within 5s")
+			continue
+		}
+		sd := make(chan error, 1)
+		go func() { sd <- s.Shutdown() }()
+		select {
+		case <-sd: // refused as not started, or nil: both are an answer
+		case <-time.After(3 * time.Second):
+			viol("shutdown-hang:failed-start", "Shutdown after a failed "+what+" did not return within 3s")
+			continue
+		}
+		if i%2 == 1 {
+			s.Handle("late.$id", res.GetResource(func(r res.GetRequest) { r.NotFound() }))
+		}
+		conn := rconn.New(nil)
+		served := make(chan struct{}, 1)
+		s.SetOnServe(func(*res.Service) { served <- struct{}{} })
+		done := make(chan error, 1)
+		go func() { done <- s.Serve(conn) }()
+		select {
+		case <-served:
+		case err := <-done:
+			viol("restart-refused:failed-start", fmt.Sprintf("Serve after a failed %s ended at once: %v", what, err))
+			continue
+		case <-time.After(3 * time.Second):
+			viol("serve-not-started", "Serve after a failed "+what+" did not start within 3s")
+			continue
+		}
+		ran := make(chan struct{})
+		if err := s.With("test.g.1", func(res.Resource) { close(ran) }); err != nil {
+			viol("with-error", fmt.Sprintf("With on the restarted service: %v", err))
+		} else {
+			select {
+			case <-ran:
+			case <-time.After(2 * time.Second):
+				viol("restart-lost", "a callback accepted after the restart did not run")
+			}
+		}
+		go func() { sd <- s.Shutdown() }()
+		select {
+		case <-sd:
+		case <-time.After(3 * time.Second):
+			viol("shutdown-hang:other", "Shutdown of the restarted service did not return within 3s")
+			continue
+		}
+		select {
+		case <-done:
+		case <-time.After(3 * time.Second):
+			viol("serve-hang", "Serve did not return within 3s after Shutdown")
+		}
+	}
+	return out
+}
+
 func FailSubLoop(seed int64, prog Program, n int) *RunResult {
 	out := &RunResult{}
 	rng := rand.New(rand.NewSource(seed))
